@@ -9,10 +9,12 @@ Not decided: the unsigned counting / reversal loops, set_bit / bit addressing of
 """
 from .common import *
 from . import arith
-from analysis import core
+from analysis import core, audit
 from analysis.guards import PI
 
 PROP = "C06"
+NOPANIC = ["count_ones", "count_zeros", "leading_zeros", "trailing_zeros", "leading_ones", "trailing_ones", "bits", "swap_bytes",
+           "reverse_bits", "is_zero", "is_one", "is_power_of_two", "not", "bitand", "bitor", "bitxor"]
 INFO = dict(
     explanation="Clause decided: signed bit operations are the unsigned operations on the same bit pattern; next_power_of_two family routing.",
     not_decided="the unsigned digit loops (early exits, bit addressing, reversal), set_bit",
@@ -30,6 +32,10 @@ def obligations(ctx, tier):
         K = ctx.k(cfg)
         for A in ADTS:
             sg = is_signed(A)
+
+            # none of the bit-logic / counting functions may reach an API-contract panic (audited may-analysis)
+            for m in NOPANIC + ([] if sg else ["checked_next_power_of_two", "wrapping_next_power_of_two"]):
+                out += core.p_minus(K, PROP, inh(A, m), set(), audit.default())
 
             def P_(W, v, A=A):
                 return v & ((1 << W.bits(A)) - 1)
